@@ -447,6 +447,130 @@ def s7(rep):
                           "two was changed without its sibling" % (a, b, i, ta, tb))
 
 
+# Top-down handlers whose node carries its own result type (an explicit `:: T`, `@ T`, `pretend T`, Boolean for the logical
+# operators, no value for import, the exception type for raise): the type is compared with the type the context requires
+# before it becomes the node's unique type.  Confirmed by reading ti_tdn.c; the bottom-up pass filters most contexts but not
+# return values, `=>` exits, the last expression of a body, or the right-hand side of a typed definition.
+OWN_TYPE_HANDLERS = ("titdnCoerceTo", "titdnRestrictTo", "titdnPretendTo", "titdnNot", "titdnAnd", "titdnOr", "titdnImport",
+                     "titdnRaise", "titdnHas")
+# bottom-up handlers that fix a node's type to Boolean but whose node is never an expression in a value context
+BOOLEAN_NOT_VALUE = {"tibupWhile": "an iterator clause: visited through the iterator loop of titdnRepeat/titdnCollect with tfBoolean"}
+
+
+def boolean_nodes():
+    """Node kinds whose bottom-up handler fixes the possible types to Boolean whatever the context (read from ti_bup.c)."""
+    f = common.extract("ti_bup.c", all_trees=True)
+    out = []
+    for name, fn in sorted(f.funcs.items()):
+        if "body" not in fn or not name.startswith("tibup") or len(fn["params"]) != 3:
+            continue
+        node = fn["params"][1]["n"]
+        fixed = False
+        for c in calls(fn["body"], "tibup0Generic"):
+            a = strip(c["c"][3]) if len(c["c"]) > 3 else None
+            if a is not None and a["k"] == "DeclRefExpr" and a["n"] == "tfBoolean":
+                fixed = True
+        for x in walk(fn["body"]):
+            if x["k"] == "BinaryOperator" and x["op"] == "=" and (strip(x["c"][0]) or {}).get("mac") == "abTPoss":
+                base = [y["n"] for y in walk(x["c"][0]) if y["k"] == "DeclRefExpr"]
+                r = strip(x["c"][1])
+                if base == [node] and r is not None and r["k"] == "CallExpr" and r.get("callee") == "tpossSingleton":
+                    a = strip(r["c"][1])
+                    if a is not None and a["k"] == "DeclRefExpr" and a["n"] == "tfBoolean":
+                        fixed = True
+        if fixed:
+            out.append(name)
+    return out
+
+
+def s8(rep):
+    bools = boolean_nodes()
+    if len(bools) < 4:
+        raise AnalysisBroken("ti_bup.c: fewer than 4 handlers fix a node to Boolean (%s)" % bools)
+    handlers = list(OWN_TYPE_HANDLERS)
+    for b in bools:
+        if b in BOOLEAN_NOT_VALUE:
+            rep.note("S8 frozen: %s: %s" % (b, BOOLEAN_NOT_VALUE[b]))
+            continue
+        t = "titdn" + b[len("tibup"):]
+        if t not in handlers:
+            handlers.append(t)          # a new always-Boolean node: its top-down handler owes the comparison too
+    f = common.extract("ti_tdn.c", trees=handlers, cfg=handlers)
+    delegates = {"titdn0Generic"}
+    for name in handlers:
+        fn = f.func(name)
+        ps = [p["n"] for p in fn["params"]]
+        if len(ps) != 3:
+            raise AnalysisBroken("%s: parameters changed" % name)
+        node, ctx = ps[1], ps[2]
+        cfg = common.CFG(fn)
+        where = "ti_tdn.c:%d (%s)" % (fn["l"], name)
+
+        def is_set(n):
+            if n["k"] != "BinaryOperator" or n["op"] != "=":
+                return False
+            l = strip(n["c"][0])
+            if l is None or l.get("mac") != "abTUnique":
+                return False
+            base = [y for y in walk(l) if y["k"] == "DeclRefExpr"]
+            return len(base) == 1 and base[0]["n"] == node
+
+        def is_delegate(n):
+            return n["k"] == "CallExpr" and n.get("callee") in delegates and len(n["c"]) > 3 and \
+                (strip(n["c"][2]) or {}).get("n") == node
+        plain_set = is_set
+
+        def is_set(n, plain_set=plain_set, is_delegate=is_delegate):
+            return plain_set(n) or is_delegate(n)
+
+        def is_test(n):
+            if n["k"] != "CallExpr" or n.get("callee") not in ("tfSatReturn", "tfSatValues", "tfSatisfies"):
+                return False
+            return any(y["k"] == "DeclRefExpr" and y["n"] == ctx for a in n["c"][2:3] for y in walk(a))
+        sets = cfg.events(is_set)
+        if not sets:
+            raise AnalysisBroken("%s: no `abTUnique(%s) = ...`" % (name, node))
+        own = [e for e in sets if not any(y["k"] == "DeclRefExpr" and y["n"] == ctx
+                                          for y in walk(e[2]["c"][3] if e[2]["k"] == "CallExpr" else e[2]["c"][1]))]
+        if not own:
+            rep.violation("S8", "own-type-compared:%s" % name, where,
+                          "the node's type is always the same (its bottom-up handler says so) but the top-down handler gives it the "
+                          "type the context requires without comparing the two: in a position the bottom-up pass does not constrain "
+                          "(a return value, an exit) the expression is accepted at any type")
+            continue
+        esc = cfg.path_avoiding(cfg.entry, is_set, is_test)
+        key = "own-type-compared:%s" % name
+        if esc is not None:
+            rep.violation("S8", key, where,
+                          "the node's own type becomes its unique type on a path that never compares it with the type the context "
+                          "requires (tfSatReturn(..., %s)): where the bottom-up pass does not constrain the context (a return value, "
+                          "an exit, the last expression of a body) an ill-typed program is accepted without a message" % ctx,
+                          detail={"cfg_path": esc[:10]})
+            continue
+        # the failing side of the comparison does not reach the assignment
+        bad = None
+        for bid in cfg.blocks:
+            ce = cfg.cond_edges(bid)
+            if ce is None:
+                continue
+            c = strip(ce[0])
+            neg = False
+            while c is not None and c["k"] == "UnaryOperator" and c.get("op") == "!":
+                neg = not neg
+                c = strip(c["c"][0])
+            if c is None or not is_test(c):
+                continue
+            fail = ce[1] if neg else ce[2]
+            if cfg.path_avoiding(fail, is_set, lambda n: False) is not None:
+                bad = bid
+        if bad is None:
+            rep.ok("S8", key)
+        else:
+            rep.violation("S8", key, where, "the unsatisfied side of the comparison with the context type still reaches "
+                          "`abTUnique(%s) = ...`: the mismatch is computed and ignored" % node)
+    rep.floor("own-type handlers", len(handlers), 9)
+
+
 def digest(f):
     return {"s1": s1_digest(f), "s45": s45_digest(f)}
 
@@ -460,6 +584,7 @@ def run(tier, only=None):
     s45(rep, dig)
     s6(rep)
     s7(rep)
+    s8(rep)
     f = common.extract("axlcomp.c", all_cfg=True)
     s2(rep, f)
     s3(rep, f)
